@@ -72,7 +72,7 @@ func onlyRelations(objs []osm.Object) []osm.Object {
 
 // pbfInput builds (once per distinct shape) the PBF stream of a history.
 func pbfInput(h history) input {
-	key := fmt.Sprint(h.Blocks, h.Empty, h.Headerless, h.Damaged, h.IOErr, h.FaultAt, h.Skip)
+	key := fmt.Sprint(h.Blocks, h.Empty, h.Headerless, h.Damaged, h.IOErr, h.FaultAt, h.Skip, h.Cut)
 	inputMu.Lock()
 	defer inputMu.Unlock()
 	if in, ok := inputCache[key]; ok {
@@ -101,12 +101,23 @@ func pbfInput(h history) input {
 		if fb == 0 {
 			o.Garbage = true
 		}
-		in.data = append(in.data, pbfgen.EncodeFileBlock("OSMHeader", pbfgen.EncodeBlob(pbfgen.StdHeader().Bytes(), o), pbfgen.FileBlockOpts{})...)
+		in.data = append(in.data, pbfgen.EncodeFileBlock("OSMHeader", pbfgen.EncodeBlob(pbfgen.StdHeader().Bytes(), pbfgen.BlobOpts{Garbage: o.Garbage && !h.Cut}), pbfgen.FileBlockOpts{})...)
+		if h.Cut && fb == 0 {
+			// the input ends inside the header block (7 bytes: size prefix and a bit of the BlobHeader)
+			in.data = in.data[:7]
+			break
+		}
 		for i := range f.Blocks {
 			b := &f.Blocks[i]
 			o := pbfgen.BlobOpts{}
 			if i+1 == fb {
 				o.Garbage = true
+			}
+			if h.Cut && i+1 == fb {
+				// the input ends inside this block
+				whole := pbfgen.EncodeFileBlock("OSMData", pbfgen.EncodeBlob(b.PrimitiveBlock(), pbfgen.BlobOpts{}), pbfgen.FileBlockOpts{})
+				in.data = append(in.data, whole[:len(whole)/2]...)
+				break
 			}
 			in.data = append(in.data, pbfgen.EncodeFileBlock("OSMData", pbfgen.EncodeBlob(b.PrimitiveBlock(), o), pbfgen.FileBlockOpts{})...)
 			if i+1 < fb {
